@@ -189,6 +189,14 @@ func NewProofCommit(key *gabikeys.PublicKey, witn *Witness, randomizer *big.Int)
 	local := *witn
 	local.randomizer = randomizer
 
+	// a witness that was stored and loaded again carries no cached accumulator: verify and unmarshal it first
+	if local.SignedAccumulator == nil || local.U == nil || local.E == nil {
+		return nil, nil, errors.New("incomplete witness")
+	}
+	if _, err := local.SignedAccumulator.UnmarshalVerify(key); err != nil {
+		return nil, nil, err
+	}
+
 	if !proofstructure.isTrue((*witness)(&local), local.SignedAccumulator.Accumulator.Nu, key.N) {
 		return nil, nil, errors.New("non-revocation relation does not hold")
 	}
